@@ -674,7 +674,11 @@ func c07RandPolicies(rng *kit.Rand, parentPols []string, ro *c07Role) []string {
 	case k < 17:
 		out = []string{kit.Pick(rng, []string{"response-wrapping", "Response-Wrapping"})}
 	case k < 18:
-		out = []string{"", kit.Pick(rng, c07Content)}
+		if rng.Chance(1, 2) {
+			out = []string{"", kit.Pick(rng, c07Content)}
+		} else {
+			out = append(append([]string{}, parentPols...), "default", extra()) // everything the parent has, and more
+		}
 	default:
 		if ro != nil && (len(ro.Allowed) > 0 || len(ro.Disallowed) > 0) {
 			pool := append(append([]string{}, ro.Allowed...), ro.Disallowed...)
@@ -849,7 +853,7 @@ func TestVerif_C07_Random(t *testing.T) {
 func TestVerif_C07_Lattice(t *testing.T) {
 	seed := kit.Seed(7)
 	shard, _ := kit.Shard()
-	r := kit.NewResult(t, "c07-lattice", seed, "full product capability{none, sudo on the called path, sudo only elsewhere, root} x namespaces{root, ns1, root->ns1} x endpoint{create, create-orphan, role without lists, role allowed, role allowed+glob, role disallowed, role disallowed glob, role allowed+disallowed} x requested policies{none, subset, superset, default, root, response-wrapping, glob-matched, role-disallowed} x no_default_policy x parent has default, plus capability x namespaces x endpoint{create, create-orphan, plain role, orphan role, period role} x flag{no_parent, period, id, batch type, explicit max, huge ttl}; "+c07Rule0)
+	r := kit.NewResult(t, "c07-lattice", seed, "full product capability{none, sudo on the called path, sudo only elsewhere, root} x namespaces{root, ns1, root->ns1} x endpoint{create, create-orphan, role without lists, role allowed, role allowed+glob, role disallowed, role disallowed glob, role allowed+disallowed, role allowing root} x requested policies{none, subset, superset, all of the parent plus one, default, root, root in upper case, response-wrapping (two spellings), glob-matched, role-disallowed} x no_default_policy x parent has default; capability x namespaces x endpoint{create, create-orphan, plain role, orphan role, period role, explicit-max role} x flag{no_parent, period, id, batch type, explicit max, huge ttl, combinations}; batch and use-limited parents x capability x namespaces x endpoints; "+c07Rule0)
 	defer r.Write(t)
 	w := c07Boot(t)
 	rng := kit.NewRand(seed, uint64(shard)+900)
@@ -899,13 +903,17 @@ func TestVerif_C07_Lattice(t *testing.T) {
 		"role-disallowed": func(n string) *c07Role { return &c07Role{Name: n, Renewable: true, Disallowed: []string{"b", "ops-x"}} },
 		"role-denyglob":   func(n string) *c07Role { return &c07Role{Name: n, Renewable: true, DisallowedGlob: []string{"ops-*", "b*"}} },
 		"role-both":       func(n string) *c07Role { return &c07Role{Name: n, Renewable: true, Allowed: []string{"a", "b", "c", "ops-x"}, Disallowed: []string{"b", "ops-x"}} },
+		"role-allowroot":  func(n string) *c07Role { return &c07Role{Name: n, Renewable: true, Allowed: []string{"root", "a"}} },
+		"role-emax":       func(n string) *c07Role { return &c07Role{Name: n, Renewable: true, ExplicitMax: "3h"} },
 		"role-orphan":     func(n string) *c07Role { return &c07Role{Name: n, Renewable: true, Orphan: true} },
 		"role-period":     func(n string) *c07Role { return &c07Role{Name: n, Renewable: true, Period: "20m"} },
 	}
-	endpoints := []string{"create", "create-orphan", "role-nolists", "role-allowed", "role-allowglob", "role-disallowed", "role-denyglob", "role-both"}
+	endpoints := []string{"create", "create-orphan", "role-nolists", "role-allowed", "role-allowglob", "role-disallowed", "role-denyglob", "role-both", "role-allowroot"}
 	requested := map[string][]string{
 		"none": nil, "subset": {"a"}, "superset": {"a", "c"}, "default": {"default"}, "root": {"root"},
 		"non-assignable": {"response-wrapping"}, "glob-matched": {"dev-db"}, "role-disallowed": {"b", "ops-x"},
+		"root-upper": {"a", " ROOT"}, "non-assignable-upper": {"Response-Wrapping "},
+		"parent-plus": {"@parent", "default", "c"}, // every policy of the parent, default and one more
 	}
 	reqKeys := make([]string, 0, len(requested))
 	for k := range requested {
@@ -929,6 +937,9 @@ func TestVerif_C07_Lattice(t *testing.T) {
 		}
 		ps := mkParent(capability, base, m, hasDefault)
 		fill(&q)
+		if len(q.Policies) > 0 && q.Policies[0] == "@parent" {
+			q.Policies = append(append([]string{}, ps.Policies...), q.Policies[1:]...)
+		}
 		w.run(r, id, ps, q, false)
 	}
 	for _, capability := range []string{"none", "sudo", "elsewhere", "root"} {
@@ -938,6 +949,9 @@ func TestVerif_C07_Lattice(t *testing.T) {
 			}
 			for _, ep := range endpoints {
 				for _, rk := range reqKeys {
+					if capability == "elsewhere" && !(rk == "none" || rk == "superset" || rk == "root" || rk == "parent-plus" || rk == "role-disallowed") {
+						continue // behaves like "none"; keep the informative points only
+					}
 					for _, nd := range []bool{false, true} {
 						for _, hd := range []bool{true, false} {
 							if capability == "root" && !hd {
@@ -951,8 +965,8 @@ func TestVerif_C07_Lattice(t *testing.T) {
 					}
 				}
 			}
-			for _, ep := range []string{"create", "create-orphan", "role-nolists", "role-orphan", "role-period"} {
-				for _, flag := range []string{"no_parent", "period", "id", "batch", "explicit", "bigttl", "period+explicit"} {
+			for _, ep := range []string{"create", "create-orphan", "role-nolists", "role-orphan", "role-period", "role-emax"} {
+				for _, flag := range []string{"no_parent", "period", "id", "batch", "explicit", "bigttl", "period+explicit", "explicit+bigttl", "smallexplicit+bigttl"} {
 					do(capability, ep, m, true, func(q *c07Req) {
 						switch flag {
 						case "no_parent":
@@ -969,6 +983,10 @@ func TestVerif_C07_Lattice(t *testing.T) {
 							q.TTL = "2000h"
 						case "period+explicit":
 							q.Period, q.ExplicitMax = "100h", "2h"
+						case "explicit+bigttl":
+							q.ExplicitMax, q.TTL = "1000h", "2000h"
+						case "smallexplicit+bigttl":
+							q.ExplicitMax, q.TTL = "2h", "2000h"
 						}
 					})
 				}
